@@ -912,8 +912,16 @@ func writeEvidence(w *vc.World, cfg *PropCfg, results []*vc.FnResult, groups map
 		"violations":  len(violations),
 	}
 	b, _ := json.MarshalIndent(ev, "", " ")
-	os.MkdirAll(filepath.Join(*verifDir, "evidence"), 0o755)
-	os.WriteFile(filepath.Join(*verifDir, "evidence", *prop+".json"), b, 0o644)
+	// a partial run (-only) or a run redirected by GOVC_EVIDENCE_DIR (seed tests) must not replace the record of the
+	// full check
+	dir := filepath.Join(*verifDir, "evidence")
+	if d := os.Getenv("GOVC_EVIDENCE_DIR"); d != "" {
+		dir = d
+	} else if *only != "" {
+		dir = filepath.Join(*verifDir, "out", "evidence_partial")
+	}
+	os.MkdirAll(dir, 0o755)
+	os.WriteFile(filepath.Join(dir, *prop+".json"), b, 0o644)
 }
 
 func relAll(fs []string) []string {
